@@ -158,18 +158,31 @@ def run_case(role, flavour, src, k, n0, rns, placement, part=None):
             s.teardown()
 
 
-def transmission_case(flavour, kind, n, part, when='after', with_pub=False):
+def _last_fragment_index(fr, i):
+    """Index of the last fragment of the (possibly fragmented) request frame at index i: its continuations are PAYLOAD frames."""
+    last = i
+    if fr[i].follows:
+        for j in range(i + 1, len(fr)):
+            if fr[j].type == R.PAYLOAD:
+                last = j
+                if not fr[j].follows:
+                    break
+    return last
+
+
+def transmission_case(flavour, kind, n, part, when='after', with_pub=False, fs=None):
     """Credit granted by an application reaches the peer with exactly that value: one request frame carrying the initial n,
     then one REQUEST_N(n) - whether request(n) is called after the request went out, in the same loop iteration as
     subscribe(), or from inside on_subscribe (the canonical Reactive Streams place)."""
-    s = Solo('client', flavour)
+    s = Solo('client', flavour, fragment_size_bytes=fs)
     try:
         sub = RecSubscriber(s.w, s.ep, 'sub', request_on_subscribe=(n if when == 'in-on_subscribe' else None))
+        q = P(b'q' * 150, b'm' * 40) if fs else P(b'q')  # with a fragment size: a request of several fragments
         if kind == 'stream':
-            s.sock.request_stream(P(b'q')).initial_request_n(n).subscribe(sub)
+            s.sock.request_stream(q).initial_request_n(n).subscribe(sub)
         else:
             from mc.app import RecPublisher
-            s.sock.request_channel(P(b'q'), RecPublisher(s.w, s.ep, 'pub') if with_pub else None).initial_request_n(n).subscribe(sub)
+            s.sock.request_channel(q, RecPublisher(s.w, s.ep, 'pub') if with_pub else None).initial_request_n(n).subscribe(sub)
         if when == 'after':
             s.settle('Q')
         if when != 'in-on_subscribe':
@@ -177,13 +190,16 @@ def transmission_case(flavour, kind, n, part, when='after', with_pub=False):
         s.settle('Q')
         fr = s.sent_on(1)
         v = []
-        ctx = kind + ('+publisher' if with_pub else '') + ('' if when == 'after' else ' | ' + when)
+        ctx = kind + ('+publisher' if with_pub else '') + ('' if when == 'after' else ' | ' + when) + (' | fragmented-request' if fs else '')
         req = [f for f in fr if f.type in (R.REQUEST_STREAM, R.REQUEST_CHANNEL)]
         rn = [f for f in fr if f.type == R.REQUEST_N]
         if len(req) != 1 or req[0].request_n != n:
             v.append(('C06.credit-transmitted', 'C06.credit-transmitted | initial | %s' % ctx, 'initial_request_n(%d) sent as %s' % (n, req)))
         if len(rn) != 1 or rn[0].request_n != n:
             v.append(('C06.credit-transmitted', 'C06.credit-transmitted | request | %s' % ctx, 'request(%d) sent as %s' % (n, rn)))
+        elif req and fs and fr.index(rn[0]) < _last_fragment_index(fr, fr.index(req[0])):
+            v.append(('C06.credit-transmitted', 'C06.credit-transmitted | request-n-inside-the-request | %s' % ctx,
+                      'request(%d) went out as REQUEST_N between the fragments of its own request (the peer does not know the stream yet and drops it): %s' % (n, [str(f) for f in fr])))
         elif req and fr.index(rn[0]) < fr.index(req[0]):
             v.append(('C06.credit-transmitted', 'C06.credit-transmitted | request-n-before-the-request | %s' % ctx,
                       'request(%d) went out as REQUEST_N before the stream existed for the peer (it drops it): %s' % (n, [str(f) for f in fr])))
@@ -191,7 +207,7 @@ def transmission_case(flavour, kind, n, part, when='after', with_pub=False):
         part.traces += 1
         part.transitions += 2
         for rule, sig, detail in v:
-            part.violate(rule, sig, detail, {'kind': 'tx', 'flavour': flavour, 'req': kind, 'n': n, 'when': when, 'with_pub': with_pub})
+            part.violate(rule, sig, detail, {'kind': 'tx', 'flavour': flavour, 'req': kind, 'n': n, 'when': when, 'with_pub': with_pub, 'fs': fs})
     finally:
         s.teardown()
 
@@ -285,6 +301,8 @@ def run_unit(unit, part):
                     for when in ('after', 'same-iteration', 'in-on_subscribe'):
                         for with_pub in ((False, True) if kind == 'channel' else (False,)):
                             transmission_case(flavour, kind, n, part, when, with_pub)
+                            if when != 'after':
+                                transmission_case(flavour, kind, n, part, when, with_pub, fs=64)
                 for limit in (1, 2, 3, MAXN):
                     for k in range(0, 7):
                         for ending in ('flag', 'complete', 'error'):
@@ -326,7 +344,7 @@ def replay(rec):
     if w['kind'] == 'tx':
         from mc.runner import Partial
         p = Partial()
-        transmission_case(w['flavour'], w['req'], w['n'], p, w.get('when', 'after'), w.get('with_pub', False))
+        transmission_case(w['flavour'], w['req'], w['n'], p, w.get('when', 'after'), w.get('with_pub', False), w.get('fs'))
         return bool(p.violations)
     placement = tuple(p if p == 'Q' else (('t', int(p[1:])) if str(p).startswith('t') else int(p)) for p in w['placement'])
     v, nsent, total, _ = run_case(w['role'], w['flavour'], w['src'], w['k'], w['n0'], tuple(w['rns']), placement)
